@@ -5,6 +5,7 @@
   and the parent locator dictionary. The correspondence harness (harness/c14.py) ties the layer to the real code.
 -/
 import HvProofs.Meta
+import HvProofs.MetaEnc
 namespace Hv.C14
 open Hv Hv.Meta Hv.Qcow2 Hv.VmdkDesc
 
@@ -132,6 +133,37 @@ def exSnapCheck : Bool :=
   | _ => false
 example : exSnapCheck = true := by decide +kernel
 
+/-- **snapshot_table_roundtrip**: for EVERY list of snapshot specs — any count; id and name byte strings of any length
+    < 2^16 (also empty); extra data absent (0), the 16-byte form, the 24-byte form, or longer with a tail the reader does not
+    know (`SnapExtra`); every numeric field anywhere in the range of its on-disk width (`SnapSpec.ok`, decidable) — if the
+    file holds `encodeSnaps specs` at `off` (per entry: the 40-byte big-endian header, extra data, id, name, zero padding to
+    the next multiple of 8 — entries 8-byte aligned as the format requires), then `QCow2.snapshots` (`readSnapsFull`, with
+    `nb_snapshots = specs.length`) returns exactly the specs: all nine header fields, the three known extra fields (0 when
+    absent), the unknown tail exposed once iff the extra data is longer than 24 bytes, id, name, `entry_size`; and the read
+    path's own walk `Qcow2.readSnapshots` (the model function C01 uses) returns its projection of the same specs. -/
+theorem snapshot_table_roundtrip (fh : File) (off : Nat) (specs : List SnapSpec) (hok : ∀ s ∈ specs, s.ok = true)
+    (hbytes : slice fh.byte off (encodeSnaps specs).length = encodeSnaps specs)
+    (hsz : off + (encodeSnaps specs).length ≤ fh.size) :
+    readSnapsFull fh specs.length off = .ok (specs.map SnapSpec.expected) ∧
+    readSnapshots fh specs.length off = .ok (specs.map SnapSpec.expectedQ) :=
+  ⟨readSnapsFull_encoded fh specs off hok hbytes hsz, readSnapshots_encoded fh specs off hok hbytes hsz⟩
+
+/-- every encoded entry occupies a multiple of 8 bytes (so with an aligned table start every entry is 8-byte aligned) and
+    the padding is the minimal one -/
+theorem snapshot_entry_padded (s : SnapSpec) :
+    (encodeSnap s).length % 8 = 0 ∧ s.entrySize ≤ (encodeSnap s).length ∧ (encodeSnap s).length < s.entrySize + 8 := by
+  rw [encodeSnap_length]; exact ⟨align8_mod _, align8_ge _, align8_lt _⟩
+
+/-- non-vacuity: the two-entry table of the example above IS `encodeSnaps` of two specs (16-byte extra data; 32-byte extra
+    data with an 8-byte unknown tail) that satisfy the hypotheses -/
+def exSnapSpecs : List SnapSpec :=
+  [ { l1Offset := 0x30000, l1Size := 1, dateSec := 5, dateNsec := 6, vmClock := 7, vmStateSize := 8,
+      extra := .v16 9 10, idStr := [49], name := [97] },
+    { l1Offset := 0x40000, l1Size := 2, dateSec := 0, dateNsec := 0, vmClock := 0, vmStateSize := 0,
+      extra := .more 1 2 3 (beBytes 8 0xAABB), idStr := [50, 50], name := "snap two".toUTF8.toList } ]
+example : encodeSnaps exSnapSpecs = exSnapBytes ∧ (∀ s ∈ exSnapSpecs, s.ok = true) := by decide +kernel
+example : readSnapsFull (fileOf exSnapBytes) 2 0 = .ok (exSnapSpecs.map SnapSpec.expected) := by decide +kernel
+
 /-! ### VMDK descriptor -/
 
 /-- **descriptor_kv_roundtrip**: for every key without '=' and without surrounding white space, and every value that does not
@@ -209,6 +241,48 @@ theorem max_seq_header_unique (h1 h2 : VHeader) (hne : h1.seq ≠ h2.seq) :
 theorem parent_locator_dict_roundtrip (es : List (Bytes × Bytes)) (h : (es.map (·.1)).Nodup) : locatorDict es = es := by
   have := locatorDict_distinct_aux es [] h (by intro _ _ x hx; cases hx)
   simpa [locatorDict] using this
+
+/-- **parent_locator_roundtrip** (strings anywhere): if the file stores a parent locator at `off` — the 20-byte header
+    (locator type GUID, reserved, key_value_count), the table of 12-byte entries (key_offset, value_offset, key_length,
+    value_length; little endian, at the extracted layout) and, for every entry, the key / value bytes at the recorded
+    offsets (relative to the locator) with the recorded lengths, ANYWHERE in the file: any order, gaps, shared strings
+    (`LocStored`) — then `ParentLocator.__init__` (`Vhdx.parseLocator`) returns the locator type and exactly the
+    key/value list in table order; with pairwise distinct keys the exposed dictionary is that list. -/
+theorem parent_locator_roundtrip_stored (fh : File) (off : Nat) (ty : Bytes) (es : List LocEntry)
+    (h : LocStored fh off ty es) (hd : (es.map (·.key)).Nodup) :
+    Vhdx.parseLocator fh off = .ok (.parentLocator ty (es.map fun e => (e.key, e.value))) ∧
+    locatorDict (es.map fun e => (e.key, e.value)) = es.map fun e => (e.key, e.value) := by
+  refine ⟨parseLocator_stored fh off ty es h, parent_locator_dict_roundtrip _ ?_⟩
+  simpa [List.map_map, Function.comp_def] using hd
+
+/-- **parent_locator_roundtrip** (the writer `encodeLocator`): for EVERY list of (key, value) byte strings (UTF-16-LE
+    code units; any count < 2^16, any lengths < 2^16 incl. empty, total size < 2^32) with pairwise distinct keys, parsing the
+    encoded locator blob — header, entry table, string area with the strings back to back — returns the locator type and
+    exactly that list, and the exposed dictionary is the list, in table order. -/
+theorem parent_locator_roundtrip (fh : File) (off : Nat) (ty : Bytes) (kvs : List (Bytes × Bytes))
+    (hty : ty.length = 16) (hcnt : kvs.length < 2 ^ 16)
+    (hkv : ∀ kv ∈ kvs, kv.1.length < 2 ^ 16 ∧ kv.2.length < 2 ^ 16)
+    (hlen : (encodeLocator ty kvs).length < 2 ^ 32)
+    (hbytes : slice fh.byte off (encodeLocator ty kvs).length = encodeLocator ty kvs)
+    (hsz : off + (encodeLocator ty kvs).length ≤ fh.size) (hd : (kvs.map (·.1)).Nodup) :
+    Vhdx.parseLocator fh off = .ok (.parentLocator ty kvs) ∧ locatorDict kvs = kvs := by
+  have hs := encodeLocator_stored fh off ty kvs hty hcnt hkv hlen hbytes hsz
+  have := parseLocator_stored fh off ty _ hs
+  rw [packEntries_kv] at this
+  exact ⟨this, parent_locator_dict_roundtrip kvs hd⟩
+
+/-- non-vacuity: a locator with three entries ("a" → "b", a surrogate pair key → empty value, "parent_linkage" → a GUID-like
+    string) written at offset 3 of a file -/
+def exLocKvs : List (Bytes × Bytes) :=
+  [([0x61, 0], [0x62, 0]), ([0x3D, 0xD8, 0x00, 0xDE], []), ([0x70, 0, 0x6C, 0], [0x7B, 0, 0x31, 0, 0x7D, 0])]
+def exLocTy : Bytes := (List.range 16).map UInt8.ofNat
+def exLocFile : File := fileOf ([9, 9, 9] ++ encodeLocator exLocTy exLocKvs ++ [7])
+example : exLocTy.length = 16 ∧ (exLocKvs.map (·.1)).Nodup ∧
+    slice exLocFile.byte 3 (encodeLocator exLocTy exLocKvs).length = encodeLocator exLocTy exLocKvs ∧
+    3 + (encodeLocator exLocTy exLocKvs).length ≤ exLocFile.size := by decide +kernel
+example : Vhdx.parseLocator exLocFile 3 = .ok (.parentLocator exLocTy exLocKvs) := by
+  refine (parent_locator_roundtrip exLocFile 3 exLocTy exLocKvs (by decide) (by decide) (by decide) (by decide +kernel)
+    (by decide +kernel) (by decide +kernel) (by decide)).1
 
 example : utf16Valid [0x61, 0, 0x3D, 0xD8, 0x00, 0xDE] = true ∧ utf16Valid [0x3D, 0xD8, 0x61, 0] = false ∧ utf16Valid [0x61] = false := by decide
 
